@@ -87,6 +87,8 @@ type VOS struct {
 	crashArmed bool
 	crashed    bool
 	protect    []protRange
+	symTrunc   bool
+	truncSizes []Int
 }
 
 type protRange struct {
@@ -685,7 +687,16 @@ func init() {
 	I["(*os.File).Truncate"] = func(fr *frame, fn *ssa.Function, args []Value) Value {
 		r := fr.r
 		o := r.fileOf(args[0])
+		if iv, ok := args[1].(Int); ok && iv.N != nil && r.vos.symTrunc {
+			// kernel harnesses: a symbolic length is recorded, the file is left alone
+			r.vos.truncSizes = append(r.vos.truncSizes, iv)
+			r.vos.event("ftruncate", o.path, -1, 0, "ok(symbolic length recorded)")
+			return nilErr
+		}
 		sz := int64(r.concInt(args[1], "truncate-size"))
+		if r.vos.symTrunc {
+			r.vos.truncSizes = append(r.vos.truncSizes, mkInt(64, uint64(sz)))
+		}
 		if o.closed || !r.vos.writable(o) {
 			return r.errnoValue(eBADF)
 		}
@@ -965,6 +976,19 @@ func init() {
 		}
 		r.vosTouch(f, off, 1)
 		return r.loadInt(f.content, off, 8)
+	}
+	I[zz+"SymbolicTruncate"] = func(fr *frame, fn *ssa.Function, args []Value) Value {
+		fr.r.vos.symTrunc = args[0].(Int).C != 0
+		fr.r.vos.truncSizes = nil
+		return nil
+	}
+	// LastTruncate() (size int64, any bool)
+	I[zz+"LastTruncate"] = func(fr *frame, fn *ssa.Function, args []Value) Value {
+		ts := fr.r.vos.truncSizes
+		if len(ts) == 0 {
+			return Tuple{mkInt(64, 0), mkBool(false)}
+		}
+		return Tuple{ts[len(ts)-1], mkBool(true)}
 	}
 	I[zz+"CrashArm"] = func(fr *frame, fn *ssa.Function, args []Value) Value {
 		fr.r.vos.crashArmed = true
